@@ -61,7 +61,15 @@ def witness(ctx, g, comp):
                             continue
                 # w5: flag flip -- the call is control dependent on self.F and the receiver is proven !F
                 return None, "recursive call %s in %s without a recognised descent" % (site.callee, fn_key(body))
-            if kind in ("fnvalue", "static"):
+            if kind == "fnvalue":
+                # `V::method` passed as a function value where V is a bare type parameter: the same type-structural descent as w3
+                ty = (site.const.get("ty") or "") if hasattr(site, "const") and site.const else ""
+                m = re.search(r"\{<([A-Z][A-Za-z0-9]*) as [^>]+>::\w+\}", ty) or re.search(r"<([A-Z][A-Za-z0-9]*) as [^>]+>::\w+", ty)
+                if m:
+                    kinds.append(("w3 type-structural descent on parameter %s (function value)" % m.group(1), site))
+                    continue
+                return None, "cycle through a function value"
+            if kind == "static":
                 return None, "cycle through a %s reference" % kind
     return "; ".join(sorted({k for k, _ in kinds if not k.startswith("structural-closure")})) or "closure of a witnessed function", None
 
